@@ -416,15 +416,38 @@ fn tl_eval(cfg: &TlCfg, hist: &[TlOp], prop: &str) -> EvalOut {
                 out.findings.push(Finding::new("C16", "tinylfu_clone", "key_queries", format!("the clone answers hash_key/estimate/contains of key {} differently from the original after {:?}", k, hist)));
             }
         }
+        for h in &hs {
+            if c2.estimate_hashed_key(*h) != l.estimate_hashed_key(*h) || c2.contains_hash(*h) != l.contains_hash(*h) {
+                out.findings.push(Finding::new("C16", "tinylfu_clone", "hash_queries", format!("the clone answers estimate/contains of hash {:#x} differently from the original after {:?}", h, hist)));
+            }
+        }
         let ops = tl_ops(cfg);
+        // the original side of the bisimulation is an object that was never cloned (rebuilt by replaying the history)
+        let rebuild = || -> Option<TinyLFU<u64>> {
+            let mut o: TinyLFU<u64> = TinyLFU::new(cfg.size, cfg.samples, cfg.fpr).ok()?;
+            o.verif_set_seeds(cfg.seeds);
+            let mut rr = TlRef::default();
+            for op in hist {
+                if matches!(op, TlOp::IncKey(_) | TlOp::IncKeys(_)) {
+                    return None; // key-based steps hash through a per-object RandomState: not replayable onto another object
+                }
+                caught(|| tl_apply(&mut o, &mut rr, cfg, *op)).ok()?;
+            }
+            Some(o)
+        };
         for op in &ops {
-            let mut a = l.clone();
+            // (key-based configurations hash through a per-object RandomState, so there the original side has
+            // to be a clone as well; their clone is compared query by query above)
+            let mut a = match if cfg.key_ops { None } else { rebuild() } {
+                Some(a) => a,
+                None => l.clone(),
+            };
             let mut b = c2.clone();
             let mut ra = r.clone();
             let mut rb = r.clone();
             let _ = caught(|| tl_apply(&mut a, &mut ra, cfg, *op));
             let _ = caught(|| tl_apply(&mut b, &mut rb, cfg, *op));
-            if a.verif_state() != b.verif_state() || hs.iter().any(|h| a.estimate_hashed_key(*h) != b.estimate_hashed_key(*h)) {
+            if a.verif_state() != b.verif_state() || hs.iter().any(|h| a.estimate_hashed_key(*h) != b.estimate_hashed_key(*h) || a.contains_hash(*h) != b.contains_hash(*h)) {
                 out.findings.push(Finding::new("C16", "tinylfu_clone", "bisimulation", format!("{:?} behaves differently on a clone than on the original after {:?}", op, hist)));
             }
         }
@@ -489,6 +512,11 @@ fn tl_menu(prop: &str, tier: Tier) -> Vec<(TlCfg, usize, usize)> {
             v.push((TlCfg { size: 4, samples: 4, fpr: 0.01, seeds: seeds[0], hashes: vec![1], key_ops: true }, usize::MAX, if big { 6 } else { 4 }));
             v.push((TlCfg { size: 2, samples: 3, fpr: 0.01, seeds: seeds[0], hashes: base_hashes.clone(), key_ops: false }, 50_000, if big { 12 } else { 8 }));
             v.push((TlCfg { size: 4, samples: 4, fpr: 0.5, seeds: seeds[2], hashes: base_hashes.clone(), key_ops: false }, 50_000, if big { 10 } else { 6 }));
+            // doorkeepers larger than the 512-bit minimum (more samples, or a tiny false-positive ratio):
+            // the clone must probe the same bits
+            v.push((TlCfg { size: 4, samples: 60, fpr: 0.01, seeds: seeds[0], hashes: vec![0, 1, 512, 1 << 40], key_ops: false }, 50_000, if big { 5 } else { 3 }));
+            v.push((TlCfg { size: 8, samples: 1000, fpr: 0.01, seeds: seeds[3], hashes: vec![3, 1024, u64::MAX], key_ops: false }, 50_000, if big { 5 } else { 3 }));
+            v.push((TlCfg { size: 2, samples: 5, fpr: 1e-9, seeds: seeds[1], hashes: vec![0, 7, 1 << 33], key_ops: true }, 50_000, if big { 4 } else { 3 }));
         }
         _ => {
             // closures of tiny sketches (hash-only alphabet: deterministic, merges on the hook snapshot)
